@@ -14,7 +14,7 @@ from ..ser import compact_size
 
 RULE = ("completeness: consistent chains whose blocks have every tx count 1..64 (then random counts up to 600, powers of two and odd "
         "counts at several tree levels), legacy+segwit, transactions with counts/lengths at the CompactSize boundaries, x start offsets (first processed block linked against the retained record "
-        "start-1) x 8 coins (real genesis block at height 0 for bitcoin/testnet3/litecoin/dogecoin) must pass --verify with all outputs "
+        "start-1, also when the blocks below --start are pruned index-only records) x 8 coins (real genesis block at height 0 for bitcoin/testnet3/litecoin/dogecoin) must pass --verify with all outputs "
         "equal to the model. soundness (fault enumeration on the stored bytes): every single-bit flip of the merkle-root field and of the "
         "prev-hash field of chosen blocks, sampled (quick) / all (thorough) single-bit flips of the txid-covered transaction bytes, a "
         "block swapped for a foreign block, a wrong block 0 per coin: the run must exit non-zero, name that height, and leave no "
@@ -46,6 +46,36 @@ def build(spec):
                 txs.append(cb.spend_tx(1, outs=[TxOut(i, b"\x51") for i in range(cnt)]))
         cb.add_block(txs=txs)
     return cb.chain(), g
+
+
+def pruned_case(spec):
+    """pruned-node layout: the blocks below --start exist in the index only (validity level kept, HAVE_DATA/HAVE_UNDO
+    cleared, no file position, bytes gone); --verify --start k only needs the hash of k-1 and must accept the chain"""
+    from ..datadir import HeaderOnly, VALID_SCRIPTS, OPT_WITNESS
+    coin = spec["coin"]
+    chain, real_g = build(spec)
+    k = spec["start"]
+    work = harness.fresh(os.path.join(spec["work"], "c%d" % spec["n"]))
+    d = os.path.join(work, "d")
+    placements = [Placement(b, h, file=0) for h, b in chain if h >= k]
+    pruned = [HeaderOnly(b, h, VALID_SCRIPTS | (OPT_WITNESS if h % 2 else 0), len(b.txs)) for h, b in chain if h < k]
+    datadir.write_datadir(d, COINS[coin], placements, header_only=pruned)
+    binary = core.build(spec.get("profile", "release"))
+    v, runs = [], 0
+    for cbname in ("csvdump", "unspentcsvdump"):
+        dump = harness.fresh(os.path.join(work, "o"))
+        p = harness.run_cb(binary, d, coin, cbname, dump, k, None, verify=True, timeout=300)
+        runs += 1
+        if p.rc != 0:
+            v.append(viol("rejected-consistent-chain", "--verify --start %d rejected a consistent chain whose blocks below %d are pruned (index-only records): %s" % (
+                k, k, (p.err or p.out)[-300:].replace("\n", " | "))))
+            continue
+        bad = oracles.check_csvdump(p, dump, chain, coin, k, None) if cbname == "csvdump" else oracles.check_unspent(p, dump, chain, coin, k, None)
+        v.extend(viol("accepted-but-" + sig, det) for sig, det in bad)
+    shutil.rmtree(work, ignore_errors=True)
+    return {"evaluations": runs, "violations": v, "shapes": ["accept-pruned|%s|start=%d" % (coin, k)],
+            "counters": {"runs": runs, "accept_runs": runs, "pruned_predecessor_runs": runs},
+            "sample": {"kind": "accept-pruned", "coin": coin, "start": k, "blocks": len(chain)}}
 
 
 def final_named(dump):
@@ -237,7 +267,7 @@ def genesis_case(spec):
 
 
 def dispatch(spec):
-    return {"accept": positive_case, "reject": negative_case, "genesis": genesis_case}[spec["case"]](spec)
+    return {"accept": positive_case, "reject": negative_case, "genesis": genesis_case, "pruned": pruned_case}[spec["case"]](spec)
 
 
 def plan(chk):
@@ -255,6 +285,10 @@ def plan(chk):
     for ci, coin in enumerate(COIN_NAMES if chk.thorough else COIN_NAMES[::3]):
         n += 1
         specs.append(dict(case="accept", coin=coin, seed=chk.seed, chain="rich-%d" % ci, n=n, txcounts=[2, 1, 3], rich=True))
+    for i in range(16 if chk.thorough else 4):
+        n += 1
+        specs.append(dict(case="pruned", coin=COIN_NAMES[(i * 3) % 8], seed=chk.seed, chain="pruned-%d" % i, n=n, txcounts=[2, 1, 3, 2, 4, 1], genesis=False,
+                          start=rng.randint(1, 4)))
     for i in range(200 if chk.thorough else 10):
         n += 1
         specs.append(dict(case="accept", coin=rng.choice(COIN_NAMES), seed=chk.seed, chain="rnd-%d" % i, n=n,
@@ -314,4 +348,4 @@ def main():
 
 
 def replay(spec):
-    core.replay_case("C09", {"accept": positive_case, "reject": negative_case, "genesis": genesis_case}, spec)
+    core.replay_case("C09", {"accept": positive_case, "reject": negative_case, "genesis": genesis_case, "pruned": pruned_case}, spec)
